@@ -216,3 +216,11 @@ def build(ck):
       ck.explore(f'{BL}.AbstractBlockDiagonalRule.apply', lambda S: block_rule(S, True), T, label='same-layout',
                axioms=axioms + A.block_struct_axioms(),
                contracts={**A.block_structure_contracts(), **A.container_callee_contracts(P)})
+
+    # ------------------------------------------------------------------ soundness of the remaining concrete rules
+    # (element-level identities behind the rule contract; scenarios shared with the packs that own those classes)
+    from props import C12, C13, C15
+    from theories import indexing as IX
+    C13.build3(ck, C13.theory(), rules_only=True)     # MoveAxisInverseRule, ReshapeInverseRule
+    C12.build_rules(ck, IX.theory())                  # IndexTransposeRule, TransposeIndexRule, PackUnpackRule
+    C15.build(ck)                                     # QURotationRule, QURotationHWPRule, LinearPolarizerHWPRule (+ the mv they rest on)
